@@ -17,7 +17,7 @@ from sim import corpus, histsim, kit, project, runner
 
 PROP = "C02"
 FAMILY = {"hist": 2400, "stall": 300}  # finite scenario families (members are independent of VERIF_SEED)
-SOFT = ("only_once_note", "partial_output_before_blocker")  # known classes: keep looking for others
+SOFT = ("soft",)  # known classes: keep looking for others
 
 
 def judge(warm: dict[str, Any], cold: dict[str, Any]) -> dict[str, Any] | None:
@@ -26,10 +26,9 @@ def judge(warm: dict[str, Any], cold: dict[str, Any]) -> dict[str, Any] | None:
             return {"kind": f"{name}_run_abnormal", "status": r["status"], "detail": (r.get("traceback") or r.get("stderr", ""))[-1500:]}
     if runner.same_observable(warm, cold):
         return None
-    if runner.differs_only_in_only_once(warm, cold):
-        return {"kind": "only_once_note", "diff": runner.first_difference(warm, cold)}
-    if runner.partial_output_before_blocker(warm, cold):
-        return {"kind": "partial_output_before_blocker", "diff": runner.first_difference(warm, cold)}
+    soft = runner.soft_difference(warm, cold)
+    if soft is not None:
+        return {"kind": "soft", "classes": soft, "diff": runner.first_difference(warm, cold)}
     return {"kind": "warm_differs", "diff": runner.first_difference(warm, cold)}
 
 
@@ -85,7 +84,7 @@ def swallowed_blocker_signature(v: dict[str, Any]) -> bool:
 
 
 def vclass(v: dict[str, Any]) -> str:
-    return v["kind"]
+    return v["kind"] + (":" + v["classes"] if v["kind"] == "soft" else "")
 
 
 def minimise(scn: dict[str, Any], viol: dict[str, Any]) -> dict[str, Any]:
@@ -273,6 +272,15 @@ def run(tier: str) -> int:
             by_class.setdefault(key, []).append(v)
     unknown = []
     for cls, vs in sorted(by_class.items()):
+        if vs[0]["violation"]["kind"] == "soft":
+            es = kit.match_soft(vs[0]["violation"]["classes"], known)
+            if es is not None:
+                for e in es:
+                    rep.known_finding(e["what"])
+                rep.probes["soft_" + vs[0]["violation"]["classes"]] = rep.probes.get("soft_" + vs[0]["violation"]["classes"], 0) + len(vs)
+                continue
+            unknown.append(vs[0])
+            continue
         e = match_known(cls, vs[0], known)
         if e is not None:
             rep.known_finding(f"{e['what']} (occurrences this run: {len(vs)})")
